@@ -55,6 +55,7 @@ def main():
             rc = 1 if hits else 0
         else:
             spec = checks.CHECKS[a.prop]
+            checks.CUR_TIER = tier
             plan = spec(tier, seed)
             vplib.run_all(plan["runs"], b, tmp, max_cpu=plan.get("max_cpu", 20), log=log)
             rc = vplib.finish_check(a.prop, tier, seed, plan["runs"], t0, plan["rule"], plan.get("min_events"),
